@@ -210,6 +210,16 @@ def one_run(g, S, z, ladder, emb, extra_checks, twin=0):
         want = Counter(f"{zn.name}/Direct Integration" for zn in walk(mz) if zn.identifier in kinds)
         if Counter(n for n in names if n.endswith("/Direct Integration")) != want:       # zone names may repeat in different branches
             run["py"].append("C14.one_DI_record_per_zone")
+        # C04 at its end points: the utility grand composite curve reaches (sum of hot duties) at the hot end and (sum of cold
+        # duties) at the cold end, the pocket-free process curve Qh and Qc; "between zero and the process curve" forbids more
+        for t in out.targets:
+            if t.name.endswith("/Direct Integration"):
+                sc_ = 1e-6 * max(1.0, abs(float(t.Qh)) + abs(float(t.Qc)) + abs(float(t.Qr)))
+                if (sum(float(u.heat_flow) for u in t.hot_utilities) > float(t.Qh) + sc_
+                        or sum(float(u.heat_flow) for u in t.cold_utilities) > float(t.Qc) + sc_
+                        or any(float(u.heat_flow) < -sc_ for u in t.hot_utilities + t.cold_utilities)):
+                    run["py"].append("C04.utility_gcc_within_process_gcc.end_values")
+                    break
         if recs is None:
             run["err"] = "non-finite number in a record"
         else:
